@@ -145,6 +145,16 @@ func (e *Exec) execCall(f *Frame, b *ssa.BasicBlock, instr ssa.Instruction, c *s
 		for _, a := range c.Args {
 			cc.args = append(cc.args, e.val(f, a))
 		}
+		if e.rootCtr != nil && f == e.rootFrame {
+			// `at append#k(s, elems)`-style guards on builtin call sites (elems is the slice of appended elements)
+			for _, at := range e.rootCtr.Ats {
+				if at.Callee == bi.Name() {
+					cc.names = []string{bi.Name()}
+					e.siteClauses(cc)
+					break
+				}
+			}
+		}
 		e.setResult(f, result, e.builtin(cc, bi.Name()))
 		return
 	}
